@@ -10,10 +10,12 @@ import Nq.Lemmas.RewriteSpec
 import Nq.Lemmas.RewriteVerp
 import Nq.Lemmas.RewriteCase
 import Nq.Lemmas.RewriteTodo
+import Nq.Lemmas.RewriteCtl
 
 namespace Nq.Props.C10
 open Nq Nq.Rewrite Nq.Route
 open Nq.Lemmas.RewriteMap Nq.Lemmas.RewriteSpec Nq.Lemmas.RewriteVerp Nq.Lemmas.RewriteCase Nq.Lemmas.RewriteTodo
+open Nq.Lemmas.RewriteCtl
 
 /-! ### the routing rule -/
 
@@ -116,16 +118,20 @@ theorem C10_partition (c : Cfg) (hdr rs : List Bytes) (tail : Bytes)
     (hh : ∀ r ∈ hdr, isHdr r = true ∧ NUL ∉ r) (hr : ∀ r ∈ rs, NUL ∉ r) (ht : NUL ∉ tail) :
     todoDo c.lookups c.env (encode (hdr ++ rs.map (fun r => TEE :: r)) ++ tail) =
       some ⟨infoOf hdr, chanFile .loc (routeAll c rs), chanFile .rem (routeAll c rs)⟩ := by
-  unfold todoDo
-  rw [chunks_encode _ _ _ ht, todoFold_append, todoFold_hdr _ _ _ (fun r h => (hh r h).1), todoFold_T]
-  · simp [routeAll, rewrite]
-  · intro r hm
+  have hrec : ∀ r ∈ hdr ++ rs.map (fun r => TEE :: r), NUL ∉ r := by
+    intro r hm
     rcases List.mem_append.1 hm with hm | hm
     · exact (hh r hm).2
     · obtain ⟨x, hx, rfl⟩ := List.mem_map.1 hm
       have := hr x hx
       simp only [List.mem_cons, not_or]
       exact ⟨by decide, this⟩
+  unfold todoDo
+  rw [chunks_encode _ _ hrec ht, todoFold_append, todoFold_hdr _ _ _ (fun r h => (hh r h).1)]
+  simp only
+  rw [todoFold_T]
+  have : List.map (rewriteWith c.lookups c.env) rs = routeAll c rs := rfl
+  simp [this]
 
 /-- every input recipient is routed exactly once, in order: the routed list has the recipients'
 length and its i-th element is `rewrite` of the i-th recipient; the two channel lists are an
@@ -221,13 +227,32 @@ theorem C10_nohup (d d1 d2 : Daemon) (f : Files) (todo : Bytes) (out : Option To
     d2.cfg = d.cfg ∧ out = todoDo d.cfg.htLookups d.cfg.env todo := by
   simp only [accept, Option.some.injEq] at h1
   subst h1
-  simp only [accept, Daemon.top, hf] at h2
-  split at h2
-  · rename_i heq
+  simp only [accept] at h2
+  have htop : ({ d with files := f } : Daemon).top = { d with files := f } := by simp [Daemon.top, hf]
+  rw [htop] at h2
+  by_cases hq : todoDo d.cfg.htLookups d.cfg.env todo = out
+  · rw [if_pos hq] at h2
     simp only [Option.some.injEq] at h2
     subst h2
-    exact ⟨rfl, heq.symm⟩
-  · simp at h2
+    exact ⟨rfl, hq.symm⟩
+  · rw [if_neg hq] at h2; simp at h2
+
+/-! ### the control files -/
+
+/-- **parsed control files**: for a control directory without NUL bytes, `getcontrols()` (control.c
+`control_readline/rldef/readfile`, then the entry splitting of `constmap_init`) yields exactly the
+documented configuration — one entry per line, trailing blanks stripped, `#` comments and empty
+lines ignored, `key:prepend` split at the first colon, lines without colon in virtualdomains
+ignored, `me` as default for locals and envnoathost — and refuses to start exactly when neither
+`locals` nor `me` exists. -/
+theorem C10_controls (f : Files) (h : nulFreeFiles f) : (getcontrols f).map RawCfg.cfg = specCfg f :=
+  getcontrols_eq_spec f h
+
+/-- …and the HUP reread installs exactly the documented `locals`/`virtualdomains` of the files on
+disk (default for locals: the `me` read at start-up), leaving the rest of the configuration alone. -/
+theorem C10_hup_controls (f0 f : Files) (old : RawCfg) (h0 : ∀ s, f0.me = some s → NUL ∉ s) (h : nulFreeFiles f) :
+    (reget (readline f0.me) old f).cfg = specHup old.cfg f0 f :=
+  reget_eq_spec f0 f old h0 h
 
 /-! ### non-vacuity (bytes: 64 '@', 37 '%', 46 '.', 58 ':', 45 '-', 0 NUL, 97.. 'a'..) -/
 
@@ -252,5 +277,13 @@ example : senderadd [108, 45, 64, 104, 45, 64, 91, 93] [114, 64, 100] = [108, 45
 /-- a todo file "u1\0Fs\0Tx@a\0Ty@z\0": one local, one remote record -/
 example : todoDo exCfg.lookups exCfg.env [117, 49, 0, 70, 115, 0, 84, 120, 64, 97, 0, 84, 121, 64, 122, 0] =
     some ⟨[70, 115, 0], [84, 120, 64, 97, 0], [84, 121, 64, 122, 0]⟩ := by decide
+
+/-- control files: locals "A \n#c\n\nb" (no final newline), virtualdomains "u@b:t\nnocolon\n:c\n", me "m\n" -/
+example : getcontrols ⟨some [109, 10], none, some [65, 32, 10, 35, 99, 10, 10, 98],
+      none, some [117, 64, 98, 58, 116, 10, 110, 111, 10, 58, 99, 10]⟩ =
+    some { env := [109], ph := [], locals := [65, 0, 98, 0],
+           vdoms := [117, 64, 98, 58, 116, 0, 110, 111, 0, 58, 99, 0] } := by decide
+example : parseEntries [117, 64, 98, 58, 116, 0, 110, 111, 0, 58, 99, 0] true =
+    [⟨[117, 64, 98], [116]⟩, ⟨[], [99]⟩] := by decide
 
 end Nq.Props.C10
